@@ -22,7 +22,8 @@ V1 == 1
 V2 == 2
 Alphabet ==
   {P("("), P(")"), P(","), P(";"), P("]"), P("eof"),
-   Word("a", 0, NILV, NILV), Word("b", 0, NILV, NILV), Word("", 1, V1, NILV), Word("", 2, V1, V2),
+   Word("a", 0, NILV, NILV), Word("0.25/b", 0, NILV, NILV),     \* a plain name, and a name that starts like a support/p-value
+   Word("", 1, V1, NILV), Word("", 2, V1, V2),
    LenTok(TRUE, V2), LenTok(FALSE, NILV), CmTok(TRUE, "c"), CmTok(FALSE, "c")}
 
 \* a word cannot directly follow a word or a length (the lexer would read one longer word)
